@@ -205,6 +205,75 @@ PROPS["C20"] = dict(
     open_statements=["always_closed as a leadsTo theorem (proved: no stuck state after cancellation and closed <-> goroutine gone)"],
 )
 
+def c11_race_search(cx):
+    """search component of C11: pairwise concurrent API programs under the Go race detector"""
+    import subprocess, time, re, json
+    from vcheck import build_go, Lock, GOENV, VERIF, run, LEAN
+    with Lock("go"):
+        res = build_go(cx.work, ("racer",), race=True)
+    rc, o, binp = res["racer"]
+    if rc != 0:
+        cx.add_obligation("build:racer (-race)", False, o[-1500:])
+        cx.violation("build", "racer does not build against /repo: " + o[-400:], dict(broken="go build -race ./cmd/racer", output=o[-3000:]), found_input=False)
+        return
+    # a broken table obligation widens the search (that is the search for a failing input)
+    broken = any((not ok) and n.startswith("BB.Conform.C11") for (n, ok, _) in cx.obligations)
+    iters = (60 if cx.quick() else 1500) * (5 if broken else 1)
+    t0 = time.time()
+    env = dict(GOENV, GORACE="halt_on_error=0")
+    p = subprocess.run([binp, "-iters", str(iters), "-seed", str(cx.seed)], stdout=subprocess.PIPE, stderr=subprocess.PIPE, text=True,
+                       env=env, timeout=3000)
+    err = p.stderr
+    pairs = re.findall(r"^PAIR (.*)$", err, re.M)
+    blocks = re.split(r"(?==+\nWARNING: DATA RACE)", err)
+    races = [b for b in blocks if "WARNING: DATA RACE" in b and "/repo/" in b]
+    stuck = re.findall(r"^STUCK (.*)$", err, re.M)
+    cx.cov["evaluations"] += len(pairs)
+    cx.cov["distinct_nontrivial"] += len(set(pairs))
+    cx.cov["components"].append(dict(family="racer", pairs=len(pairs), iterations_per_pair=iters, races=len(races), stuck=stuck, wall_s=round(time.time() - t0, 2)))
+    if len(cx.cov["samples"]) < 3:
+        cx.cov["samples"].append(dict(racer_pairs=pairs[:12]))
+    cx.rules.append("racer (search, not proof): every unordered pair of public operations per type (Buffer+consumers, Channel, Workers, Worker, Exclusive, Notifier, "
+                    "ChanPubSub, ChanCaster, context combinators, WaitCond) run concurrently for N iterations under -race; a report with a library frame is a failing input; "
+                    "distinct = distinct pair")
+    seen = set()
+    for b in races:
+        frames = re.findall(r"go-bigbuff\.([^\s]+)\n\s+(/repo/[^\s]+)", b)
+        sig = tuple(sorted(set(f[1].split(" ")[0] for f in frames)))[:4]
+        if sig in seen:
+            continue
+        seen.add(sig)
+        # the pair that was running when the report appeared
+        before = err[:err.find(b)]
+        pair = (re.findall(r"^PAIR (.*)$", before, re.M) or ["?"])[-1]
+        cx.violation("race", f"data race inside the library while running pair [{pair}]: " + "; ".join(f"{a} {b_}" for a, b_ in frames[:4]),
+                     dict(property="C11", kind="race", pair=pair, seed=cx.seed, iterations=iters, report=b[:4000]), found_input=True,
+                     pair=pair, frames=" ".join(f[0] for f in frames[:6]))
+        if len(seen) >= 5:
+            break
+    if broken:
+        # describe the offending accesses of the table
+        path = os.path.join(cx.work, "Offenders.lean")
+        open(path, "w").write("import BB.Conform.C11Policy\nopen BB.Conform.C11\n#eval offenders.map describe\n")
+        rc2, o2 = run(["lake", "env", "lean", path], cwd=LEAN, timeout=600)
+        cx.cov["offending_accesses"] = o2[-3000:]
+        for v in cx.violations:
+            if v.get("obligation", "").startswith("BB.Conform.C11"):
+                v["replay"]["offending_accesses"] = o2[-3000:]
+
+PROPS["C11"] = dict(
+    lean_targets=["BB.Proofs.Lockset", "BB.Conform.C11"],
+    theorems=["BB.LocksetTheory.excl_step", "BB.LocksetTheory.holds_persists", "BB.LocksetTheory.conflicting_accesses_ordered",
+              "BB.Conform.C11.access_table_consistent", "BB.Conform.C11.table_covers", "BB.Conform.C11.lock_order_facts"],
+    corr=[],
+    custom=[c11_race_search],
+    uses_extract=True,
+    assumptions=["Go memory model: a release/acquire pair on a sync.Mutex/RWMutex orders the critical sections (modelled by the abstract lock semantics of BB/Proofs/Lockset.lean)",
+                 "the translator attributes accesses and computes must-hold locksets (trusted; mechanical); accesses it cannot see (reflection, values behind interfaces, "
+                 "channel element hand-over, atomics) are outside the table",
+                 "two allowances justified in BB/Conform/C11Policy.lean: Worker.stop/done read by Worker.do (go edge + close/receive), exclusiveItem.work read by the runner after the swap"],
+)
+
 with_conform(PROPS["C01"], "Buffer")
 with_conform(PROPS["C02"], "Buffer")
 with_conform(PROPS["C03"], "Buffer")
